@@ -6,6 +6,7 @@
    Only statements closed by `exact`. *)
 From Coq Require Import List.
 From AQ Require Import Feed.FeedLTS Feed.FeedProofs Feed.FeedInvA Feed.FeedInvB Feed.FeedExact Feed.FeedOrder Feed.FeedRecv Feed.FeedStuck.
+From AQ Require Import Feed.MuxLTS Feed.MuxProofs Feed.MuxExact.
 Import ListNotations.
 
 (* exactly_once: on every path of the LTS, a Send that has completed (put the sendLock token back;
@@ -106,3 +107,56 @@ Example C19_example :
                        LSelSent 2 2; LSendUnlock 2; LSendRet 2 1]) = Some st
              /\ log st = [(2, 2); (1, 2)] /\ arr st = [2] /\ panicked st = false /\ rank st 1 = 1 /\ rank st 2 = 2.
 Proof. eexists. vm_compute. repeat split; reflexivity. Qed.
+
+(* ======================================================================== TypeMux (aqua/event/event.go)
+   LTS Feed/MuxLTS.v: slices are (array id, length) over a heap of arrays; `mreachable st` is
+   `exists tr, mrun minit tr = Some st`; `mlog` is the ghost list of deliveries (post, subscription). *)
+
+(* copy-on-write, part 1: no step ever writes an array that has been published (a < nexta);
+   Subscribe and posdelete allocate a fresh one *)
+Theorem C19_mux_published_arrays_immutable : forall st l st', mstep st l = Some st' ->
+  nexta st <= nexta st' /\ forall a, a < nexta st -> heap st' a = heap st a.
+Proof. exact heap_stable. Qed.
+Print Assumptions C19_mux_published_arrays_immutable.
+
+(* copy-on-write, part 2: the slice a running Post iterates over WITHOUT the lock is still exactly the
+   snapshot it took under RLock, and has no duplicates *)
+Theorem C19_mux_snapshot_never_mutated : forall st p a len i, mreachable st -> ppcs st p = PIter a len i ->
+  firstn len (heap st a) = snap st p /\ NoDup (snap st p).
+Proof. exact mux_snapshot_never_mutated. Qed.
+Print Assumptions C19_mux_snapshot_never_mutated.
+
+Theorem C19_mux_snapshot_is_subm : forall st p st', mstep st (MPostSnap p) = Some st' ->
+  snap st' p = slice_of st (subm st (ptyp st p)).
+Proof. exact mux_snapshot_is_subm. Qed.
+Print Assumptions C19_mux_snapshot_is_subm.
+
+(* exactly once: a Post that returned nil delivered exactly once to each member of its snapshot that is
+   still subscribed (no closewait begun by Unsubscribe / Stop) and was created before the Post began, at
+   most once to the other members of the snapshot, and never to anybody outside it *)
+Theorem C19_mux_exactly_once : forall st p s, mreachable st -> ppcs st p = PDone ->
+  mcount p s (mlog st) <= 1 /\
+  (mcount p s (mlog st) = 1 -> In s (snap st p)) /\
+  (In s (snap st p) -> sstat st s = UCreated -> created st s <= ptime st p -> mcount p s (mlog st) = 1).
+Proof. exact mux_exactly_once. Qed.
+Print Assumptions C19_mux_exactly_once.
+
+Theorem C19_mux_at_most_once : forall st p s, mreachable st -> mcount p s (mlog st) <= 1.
+Proof. exact mux_at_most_once. Qed.
+Print Assumptions C19_mux_at_most_once.
+
+(* nothing is delivered to a subscription after its closewait finished (Unsubscribe / Stop returned) *)
+Theorem C19_mux_no_delivery_after_close : forall t1 s t2 st p,
+  mrun minit (t1 ++ MPostcClose s :: t2) = Some st -> ~ In (MDeliverSent p s) t2.
+Proof. exact mux_no_delivery_after_close. Qed.
+Print Assumptions C19_mux_no_delivery_after_close.
+
+(* non-vacuity: three subscribers of one type; Post 1 blocked on the first one, which is unsubscribed
+   meanwhile (posdelete publishes array 3, the snapshot array 2 is untouched): the Post still delivers
+   to subscribers 2 and 3, exactly once each *)
+Example C19_mux_example :
+  exists st, mrun minit [MSubNew 1; MSubAdd 1 0; MSubNew 2; MSubAdd 2 0; MSubNew 3; MSubAdd 3 0; MPostCall 1 0; MPostSnap 1;
+                         MDel 1 0; MClosing 1; MDeliverClosed 1 1; MPostcClose 1; MDeliverSent 1 2; MDeliverSent 1 3; MPostRet 1] = Some st
+    /\ ppcs st 1 = PDone /\ snap st 1 = [1; 2; 3] /\ heap st 2 = [1; 2; 3] /\ subm st 0 = Some (3, 2) /\ heap st 3 = [2; 3]
+    /\ mlog st = [(1, 3); (1, 2)] /\ sstat st 2 = UCreated /\ created st 2 <= ptime st 1.
+Proof. eexists. vm_compute. repeat split; try reflexivity. auto. Qed.
